@@ -244,6 +244,35 @@ def run_case(case):
                                             "kept_stat_len": max([len(v_) for v_ in kept["null_count"].values() if v_ is not None] or [0]), **ctx0})
             except Exception as e:
                 res["failures"].append({"kind": "statistics_followup_raised", **ctx0, **C.exc_shape(e)})
+        # ---- the same after an append made through the handle (any scheme), and for handles sliced from one whose statistics were read
+        if s is not None and len(pf.row_groups) >= 1:
+            def snap2(h):
+                st = h.statistics
+                return {w: {c_: (None if v_ is None else [repr(x_) for x_ in v_]) for c_, v_ in st[w].items()} for w in ("min", "max", "null_count")}
+            step = "warm"
+            try:
+                from fastparquet.writer import reset_row_idx
+                snap2(pf)
+                step = "write_row_groups"
+                try:
+                    pf.write_row_groups(reset_row_idx(df) if pf._get_index() else df)
+                    appended = True
+                except Exception:
+                    appended = False
+                    counters["statistics_append_refused"] = counters.get("statistics_append_refused", 0) + 1
+                fresh_pf = fastparquet.ParquetFile(path)
+                if appended:
+                    if snap2(pf) != snap2(fresh_pf):
+                        res["failures"].append({"kind": "statistics_of_kept_handle_stale_after_edit", "edit": "write_row_groups", "kept_row_groups": len(pf.row_groups), **ctx0})
+                    counters["statistics_after_append_compared"] = counters.get("statistics_after_append_compared", 0) + 1
+                step = "slice"
+                n_ = len(pf.row_groups)
+                for sl in (slice(1, None), slice(0, max(1, n_ // 2)), slice(None, None, 2)):
+                    if snap2(pf[sl]) != snap2(fastparquet.ParquetFile(path)[sl]):
+                        res["failures"].append({"kind": "statistics_of_sliced_handle_depend_on_the_parent", "slice": str(sl), "row_groups": n_, **ctx0})
+                    counters["sliced_statistics_compared"] = counters.get("sliced_statistics_compared", 0) + 1
+            except Exception as e:
+                res["failures"].append({"kind": "statistics_followup_raised", "step": step, **ctx0, **C.exc_shape(e)})
         res["outcome"] = "ok"
         res["nontrivial"] = n_stat > 0
         f = c01.features(case, len(df))
@@ -292,4 +321,4 @@ def same_logical(want, got):
 
 
 def required(tier):
-    return {"chunks_with_minmax": 1500, "null_counts_compared": 1500, "api_stats_compared": 1500, "sorted_columns_checked": 50, "statistics_after_edit_compared": 20}
+    return {"chunks_with_minmax": 1500, "null_counts_compared": 1500, "api_stats_compared": 1500, "sorted_columns_checked": 50, "statistics_after_edit_compared": 20, "statistics_after_append_compared": 100, "sliced_statistics_compared": 300}
